@@ -1,5 +1,6 @@
 import DendroModel.Theory.C10Step
 import DendroModel.Theory.C10Bits
+import DendroModel.Theory.C10More
 /-! C10 — property theorems about the namespace state machine `DendroModel.C10.step` (the definitions the driver
 `drv_c10` runs).  `Aux.WInv w` is the invariant of a world: every namespace satisfies `Aux.Inv` (member list
 duplicate-free; members = keys of the taxon→index map; every index below the counter; the two index maps inverse
@@ -183,9 +184,65 @@ theorem index_never_rebound (ops : List Op) (w : World) (n : Nat) (s s' : NS) (h
     simp only [exec] at hs'
     exact rel_a2t r hi (ih (step w op).1 s1 h1 hs' (Nat.lt_of_lt_of_le hi (rel_count r)))
 
-/-- sorting is a stable rearrangement of the member list only -/
+/-- sorting rearranges the member list (nothing is lost, nothing duplicated) … -/
 theorem sort_perm (lab : Nat → String) (rev : Bool) (l : List Nat) : (sortBy lab rev l).Perm l :=
   sortBy_perm lab rev l
+
+/-- … into label order (descending with `reverse=True`; `ordBy a b` for every earlier `a` and later `b`) … -/
+theorem sort_sorted (lab : Nat → String) (rev : Bool) (l : List Nat) : (sortBy lab rev l).Pairwise (ordBy lab rev) :=
+  sortBy_sorted lab rev l
+
+/-- … stably: members carrying the same label keep their relative order, in both directions -/
+theorem sort_stable (lab : Nat → String) (rev : Bool) (k : String) (l : List Nat) :
+    (sortBy lab rev l).filter (fun t => lab t == k) = l.filter (fun t => lab t == k) :=
+  sortBy_stable lab rev k l
+
+/-- `sort` / `reverse` as operations touch the member list only: index maps, memo, counter and flags are unchanged -/
+theorem sort_ops_spec (w : World) (n : Nat) (s : NS) (hs : w.nss[n]? = some s) (rev : Bool) :
+    step w (.sort n rev) = (w.setNs n { s with taxa := sortBy w.lab rev s.taxa }, .ok) ∧
+    step w (.rev n) = (w.setNs n { s with taxa := s.taxa.reverse }, .ok) := by
+  constructor
+  · rw [step_ns (n := n) rfl rfl, hs]; simp [stepNs]
+  · rw [step_ns (n := n) rfl rfl, hs]; simp [stepNs]
+
+example : sortBy (fun t => ["b", "a", "b", "a"].getD t "") true [0, 1, 2, 3] = [0, 2, 1, 3] := by decide
+
+/-! ### history-level forms -/
+
+/-- a taxon that stays a member of namespace `n` throughout a history keeps its bit over the whole history -/
+theorem bit_stable_history (ops : List Op) (w : World) (hw : WInv w) (n t : Nat)
+    (hmem : ∀ k, k ≤ ops.length → ∃ s, (exec w (ops.take k)).nss[n]? = some s ∧ t ∈ s.taxa)
+    (s s' : NS) (hs : w.nss[n]? = some s) (hs' : (exec w ops).nss[n]? = some s') :
+    s'.t2a.get t = s.t2a.get t := by
+  induction ops generalizing w s with
+  | nil => simp only [exec] at hs'; rw [hs] at hs'; cases hs'; rfl
+  | cons op ops ih =>
+    obtain ⟨s0, h0, m0⟩ := hmem 0 (Nat.zero_le _)
+    simp only [List.take_zero, exec] at h0
+    rw [hs] at h0; cases h0
+    obtain ⟨s1, h1, m1⟩ := hmem 1 (by simp)
+    simp only [List.take_succ_cons, List.take_zero, exec] at h1
+    have hstep := bit_stable w op n s s1 hw hs h1 t m0 m1
+    simp only [exec] at hs'
+    rw [← hstep]
+    refine ih (step w op).1 (winv_step hw op) ?_ s1 h1 hs'
+    intro k hk
+    have := hmem (k + 1) (by simp; omega)
+    simpa only [List.take_succ_cons, exec] using this
+
+/-- the counter never decreases over a history -/
+theorem counter_monotone_history (ops : List Op) (w : World) (n : Nat) (s s' : NS) (hs : w.nss[n]? = some s)
+    (hs' : (exec w ops).nss[n]? = some s') : s.count ≤ s'.count := by
+  induction ops generalizing w s with
+  | nil => simp only [exec] at hs'; rw [hs] at hs'; cases hs'; exact Nat.le_refl _
+  | cons op ops ih =>
+    obtain ⟨s1, h1, r⟩ := step_rel w op n s hs
+    simp only [exec] at hs'
+    exact Nat.le_trans (rel_count r) (ih (step w op).1 s1 h1 hs')
+
+example : ∃ s', (exec World.init [.mkns false [.lab "A", .lab "B", .lab "C"], .rm 0 0, .sort 0 true, .new 0 "D", .deep 0]).nss[0]? = some s' ∧
+    s'.t2a.get 1 = some 1 ∧ s'.taxa = [2, 1, 3] := by
+  refine ⟨_, rfl, by decide, by decide⟩
 
 /-! ## (b) taxa → bitmask → taxa, and the renderings -/
 
@@ -249,6 +306,43 @@ theorem newick_spec (s : NS) (hi : Inv s) (lab : Nat → String) (S : List Nat) 
       List.filter_congr (fun t ht => by rw [hside t ht])
     simp [List.filter_map, Function.comp_def, h1, h2]
 
+/-- the rendering of an *arbitrary* mask (bits of removed taxa or beyond the counter included): a member is on the left
+exactly when its own bit is set in the mask; bits that belong to no member name nothing -/
+theorem newick_any_mask (s : NS) (hi : Inv s) (lab : Nat → String) (m : Nat) (ps qu : Bool) :
+    (s.newick lab m ps qu).2 = .ok (
+      if m = 0 ∨ m = s.allMask then .flat (s.taxa.map (fun t => escapeToken ps qu (lab t)))
+      else .sides ((s.taxa.filter (fun t => onSide s m t)).map (fun t => escapeToken ps qu (lab t)))
+                  ((s.taxa.filter (fun t => !onSide s m t)).map (fun t => escapeToken ps qu (lab t)))) :=
+  newick_any s hi lab m ps qu
+
+/-- the text the operation returns (what the driver prints and the harness compares): the two groups, each joined
+by `", "`, inside `((` … `), (` … `));` — or all labels joined by `","` inside `(` … `);` for the two trivial masks.
+Labels appear as NEXUS tokens (`escapeToken`), so taxa are named up to NEXUS token equivalence: e.g. without quoting of
+underscores the labels `c d` and `c_d` are both written `c_d`. -/
+theorem nwk_op_text (w : World) (hw : WInv w) (n : Nat) (s : NS) (hs : w.nss[n]? = some s) (m : Nat) (ps qu : Bool) :
+    (step w (.nwk n m ps qu)).2 = .str (
+      if m = 0 ∨ m = s.allMask then
+        "(" ++ ",".intercalate (s.taxa.map (fun t => escapeToken ps qu (w.lab t))) ++ ");"
+      else
+        "((" ++ ", ".intercalate ((s.taxa.filter (fun t => onSide s m t)).map (fun t => escapeToken ps qu (w.lab t))) ++
+        "), (" ++ ", ".intercalate ((s.taxa.filter (fun t => !onSide s m t)).map (fun t => escapeToken ps qu (w.lab t))) ++
+        "));") := by
+  have hi := hw.ns s (List.mem_of_getElem? hs)
+  have key := newick_any s hi w.lab m ps qu
+  rw [step_ns (n := n) rfl rfl, hs]
+  simp only [stepNs]
+  rcases hn : s.newick w.lab m ps qu with ⟨s', r⟩
+  rw [hn] at key
+  simp only at key
+  subst key
+  by_cases hf : m = 0 ∨ m = s.allMask
+  · simp [exceptOut, hf, Rendering.text]
+  · simp [exceptOut, hf, Rendering.text]
+
+/-- a dead bit names nobody: namespace A,B,C with A removed, mask = the bit of A -/
+example : (step (exec World.init [.mkns false [.lab "A", .lab "B", .lab "C"], .rm 0 0]) (.nwk 0 1 false true)).2
+    matches .str "((), (B, C));" := by decide
+
 /-- `bitmask_as_bitstring`: read from the right, character `i` is `'1'` exactly when bit `i` of the mask is set (so,
 by `mask_roundtrip`, exactly at the bits of the taxa the mask was built from); the string is at least as long as the
 accession counter, so every member has a position -/
@@ -267,6 +361,113 @@ theorem lookup_spec (s : NS) (lab : Nat → String) (c : Option Bool) (l : Strin
   constructor
   · simp [NS.lookupAll, scanAll_eq]
   · simp [NS.lookupFirst, scanFirst_eq]
+
+/-- what "matches" means: equality of the labels, or of their lower-cased forms when the effective setting is
+case-insensitive -/
+theorem labelMatches_iff (lab : Nat → String) (cs : Bool) (l : String) (t : Nat) :
+    labelMatches lab cs l t = true ↔ (if cs = true then l = lab t else pyLower l = pyLower (lab t)) := by
+  unfold labelMatches; cases cs <;> simp
+
+/-- `get_taxa`: with `first_match_only`, the first match of each label that has one, in label order (repeats kept);
+otherwise every member matching some label, each once, ordered by first matching label and then by membership -/
+theorem get_taxa_spec (s : NS) (lab : Nat → String) (c : Option Bool) (ls : List String) :
+    s.getTaxa lab c true ls [] = ls.filterMap (fun l => s.taxa.find? (labelMatches lab (s.effCs c) l)) ∧
+    s.getTaxa lab c false ls [] =
+      (ls.flatMap (fun l => s.taxa.filter (labelMatches lab (s.effCs c) l))).foldl
+        (fun a t => if a.contains t then a else a ++ [t]) [] ∧
+    (s.getTaxa lab c false ls []).Nodup ∧
+    (∀ t, t ∈ s.getTaxa lab c false ls [] ↔ t ∈ s.taxa ∧ ∃ l ∈ ls, labelMatches lab (s.effCs c) l t = true) := by
+  have h1 : ∀ l, s.lookupFirst lab c l = s.taxa.find? (labelMatches lab (s.effCs c) l) := fun l => (lookup_spec s lab c l).2
+  have h2 : ∀ l, s.lookupAll lab c l = s.taxa.filter (labelMatches lab (s.effCs c) l) := fun l => (lookup_spec s lab c l).1
+  refine ⟨?_, ?_, ?_, ?_⟩
+  · rw [getTaxa_first]; simp [h1]
+  · rw [getTaxa_all]; simp [h2]
+  · rw [getTaxa_all]; exact nodup_foldl_dedup _ _ List.nodup_nil
+  · intro t
+    rw [getTaxa_all, mem_foldl_dedup]
+    simp only [List.not_mem_nil, false_or, List.mem_flatMap, h2, List.mem_filter]
+    constructor
+    · rintro ⟨l, hl, ht, hm⟩; exact ⟨ht, l, hl, hm⟩
+    · rintro ⟨ht, l, hl, hm⟩; exact ⟨l, hl, ht, hm⟩
+
+/-- `get_taxa` / `has_taxa_labels` as operations: that answer, and no change of the world -/
+theorem get_taxa_ops_spec (w : World) (n : Nat) (s : NS) (hs : w.nss[n]? = some s) (c : Option Bool) (first : Bool)
+    (ls : List String) :
+    step w (.gets n c first ls) = (w, .ids (s.getTaxa w.lab c first ls [])) ∧
+    step w (.hasAll n c ls) = (w, .bool (ls.all (fun l => s.taxa.any (labelMatches w.lab (s.effCs c) l)))) := by
+  constructor
+  · rw [step_ns (n := n) rfl rfl, hs]; simp [stepNs]
+  · rw [step_ns (n := n) rfl rfl, hs]; simp [stepNs, hasTaxaLabels_eq]
+
+example : (NS.getTaxa ⟨[0, 1, 2], [], [], [], 3, true, false⟩ (fun t => ["a", "B", "A"].getD t "") none false ["A", "b", "a"] [])
+    = [0, 2, 1] := by decide
+
+/-- `taxa_bitmask(labels=…)`: succeeds, and the set bits of the result are exactly the bits of the members that match
+one of the labels -/
+theorem labels_mask_spec (w : World) (hw : WInv w) (n : Nat) (s : NS) (hs : w.nss[n]? = some s) (c : Option Bool)
+    (ls : List String) :
+    ∃ s' m, step w (.lbm n c ls) = (w.setNs n s', .nat m) ∧
+      ∀ i, m.testBit i = true ↔
+        ∃ t ∈ s.taxa, (∃ l ∈ ls, labelMatches w.lab (s.effCs c) l t = true) ∧ s.t2a.get t = some i := by
+  have hi := hw.ns s (List.mem_of_getElem? hs)
+  have hspec := (get_taxa_spec s w.lab c ls).2.2.2
+  obtain ⟨s', m, L, e, _, _, hm⟩ := mask_roundtrip s hi (s.getTaxa w.lab c false ls []) (fun t ht => ((hspec t).1 ht).1)
+  refine ⟨s', m, ?_, ?_⟩
+  · rw [step_ns (n := n) rfl rfl, hs]; simp [stepNs, e, exceptOut]
+  · intro i
+    rw [hm i]
+    constructor
+    · rintro ⟨t, ht, hti⟩; exact ⟨t, ((hspec t).1 ht).1, ((hspec t).1 ht).2, hti⟩
+    · rintro ⟨t, ht, hl, hti⟩; exact ⟨t, (hspec t).2 ⟨ht, hl⟩, hti⟩
+
+/-- `discard_taxon_label` / `remove_taxon_label` (all matches): exactly the matching members leave, the others keep
+their order and their bits; `remove_taxon_label` without a match is a `LookupError` and changes nothing -/
+theorem remove_label_spec (w : World) (hw : WInv w) (n : Nat) (s : NS) (hs : w.nss[n]? = some s) (c : Option Bool)
+    (l : String) :
+    (∃ s', step w (.dl n c l) = (w.setNs n s', .ok) ∧
+      s'.taxa = s.taxa.filter (fun t => !labelMatches w.lab (s.effCs c) l t) ∧
+      ∀ t ∈ s'.taxa, s'.t2a.get t = s.t2a.get t) ∧
+    (s.taxa.filter (labelMatches w.lab (s.effCs c) l) = [] → step w (.rml n c l) = (w, .err .lookupError)) ∧
+    (s.taxa.filter (labelMatches w.lab (s.effCs c) l) ≠ [] →
+      (step w (.rml n c l)).1 = (step w (.dl n c l)).1 ∧ (step w (.rml n c l)).2 = .ok) := by
+  have hi := hw.ns s (List.mem_of_getElem? hs)
+  have hl := (lookup_spec s w.lab c l).1
+  have hmem : ∀ t ∈ s.taxa.filter (labelMatches w.lab (s.effCs c) l), t ∈ s.taxa := fun t ht => (List.mem_filter.1 ht).1
+  have hnd : (s.taxa.filter (labelMatches w.lab (s.effCs c) l)).Nodup := hi.nodup.sublist List.filter_sublist
+  obtain ⟨hnone, htaxa⟩ := removeAll_taxa _ s hmem hnd
+  have hrel := removeAll_rel (c := ⟨false, false, 0⟩) rfl (s.taxa.filter (labelMatches w.lab (s.effCs c) l)) s
+  rcases hra : s.removeAll (s.taxa.filter (labelMatches w.lab (s.effCs c) l)) with ⟨s', r⟩
+  rw [hra] at hnone htaxa hrel
+  simp only at hnone htaxa hrel
+  subst hnone
+  have hdl : step w (.dl n c l) = (w.setNs n s', .ok) := by
+    rw [step_ns (n := n) rfl rfl, hs]; simp [stepNs, hl, hra]
+  refine ⟨⟨s', hdl, ?_, ?_⟩, ?_, ?_⟩
+  · rw [htaxa]
+    apply List.filter_congr
+    intro t _
+    cases hm : labelMatches w.lab (s.effCs c) l t with
+    | true =>
+      have : t ∈ s.taxa.filter (labelMatches w.lab (s.effCs c) l) := List.mem_filter.2 ⟨‹_›, hm⟩
+      simp [this]
+    | false =>
+      have : t ∉ s.taxa.filter (labelMatches w.lab (s.effCs c) l) := fun h => by
+        have := (List.mem_filter.1 h).2; rw [hm] at this; cases this
+      simp [this]
+  · intro t ht
+    have hi' := rel_inv hrel hi
+    obtain ⟨i', hti'⟩ := Option.isSome_iff_exists.1 ((hi'.dom t).1 ht)
+    rw [hti', rel_shrink hrel rfl hti']
+  · intro he
+    rw [step_ns (n := n) rfl rfl, hs]; simp [stepNs, hl, he]
+  · intro hne
+    rw [hdl]
+    rw [step_ns (n := n) rfl rfl, hs]
+    cases hf : s.taxa.filter (labelMatches w.lab (s.effCs c) l) with
+    | nil => exact absurd hf hne
+    | cons x xs =>
+      rw [hf] at hra
+      simp [stepNs, hl, hf, hra]
 
 /-- `findall` / `get_taxon` / `has_taxon_label` as operations: that answer, and no change of the world -/
 theorem lookup_ops_spec (w : World) (n : Nat) (s : NS) (hs : w.nss[n]? = some s) (c : Option Bool) (l : String) :
@@ -334,6 +535,44 @@ theorem immutable_spec (w : World) (op : Op) (n : Nat) (s s' : NS) (hs : w.nss[n
       rw [hn'] at hs'
       simp only [stepNs, World.setNs, List.getElem?_set_ne hne] at hs'
       rw [hs] at hs'; cases hs'; exact ⟨hm, fun _ h => h⟩
+
+/-- a namespace that is immutable stays immutable and never gains a member over a whole history in which
+`is_mutable` is not assigned on it -/
+theorem immutable_history (ops : List Op) (w : World) (n : Nat) (s s' : NS) (hs : w.nss[n]? = some s)
+    (hs' : (exec w ops).nss[n]? = some s') (hm : s.mutable_ = false) (hops : ∀ op ∈ ops, ∀ b, op ≠ .setMut n b) :
+    s'.mutable_ = false ∧ ∀ t ∈ s'.taxa, t ∈ s.taxa := by
+  induction ops generalizing w s with
+  | nil => simp only [exec] at hs'; rw [hs] at hs'; cases hs'; exact ⟨hm, fun _ h => h⟩
+  | cons op ops ih =>
+    obtain ⟨s1, h1, _⟩ := step_rel w op n s hs
+    simp only [exec] at hs'
+    obtain ⟨a, b⟩ := immutable_spec w op n s s1 hs h1 hm (hops op (by simp))
+    obtain ⟨c, d⟩ := ih (step w op).1 s1 h1 hs' a (fun o ho => hops o (by simp [ho]))
+    exact ⟨c, fun t ht => b t (d t ht)⟩
+
+example : ∃ s', (exec World.init [.mkns false [.lab "A"], .setMut 0 false, .new 0 "B", .req 0 none "c", .add 0 0]).nss[0]? = some s' ∧
+    s'.taxa = [0] ∧ s'.mutable_ = false := ⟨_, rfl, by decide, by decide⟩
+
+/-! ## the constructor -/
+
+/-- `TaxonNamespace(labels, is_case_sensitive=cs)`: a new mutable namespace, appended to the world, whose members are
+one new taxon per label string, in order, the `k`-th with label `ls[k]` and bit `k`; the counter is the number of
+labels; existing namespaces and taxa are untouched -/
+theorem ctor_labels_spec (w : World) (cs : Bool) (ls : List String) :
+    ∃ s', step w (.mkns cs (ls.map .lab)) = (⟨w.labels ++ ls, w.nss ++ [s']⟩, .nat w.nss.length) ∧
+      s'.taxa = (List.range ls.length).map (w.labels.length + ·) ∧ s'.count = ls.length ∧
+      s'.mutable_ = true ∧ s'.caseSens = cs ∧
+      ∀ k, k < ls.length → s'.t2a.get (w.labels.length + k) = some k := by
+  have hr : (Op.mkns cs (ls.map Item.lab)).refsOk w.labels.length = true := by
+    simp [Op.refsOk, Item.refOk]
+  obtain ⟨a, b, c, d, e, _, g, h⟩ := ctorLoop_labels ls w (NS.empty cs) (inv_empty cs) (by simp [NS.empty]) rfl
+  refine ⟨(ctorLoop w (NS.empty cs) (ls.map .lab)).2, ?_, by simpa [NS.empty] using c, by simpa [NS.empty] using d,
+    g, by simpa [NS.empty] using h, ?_⟩
+  · rw [step_mkns w cs _ hr]; simp only [a, b]
+  · intro k hk; simpa [NS.empty] using e k hk
+
+example : (step World.init (.mkns true [.lab "x", .lab "X"])).1.nss.map (fun s => (s.taxa, s.count, s.caseSens)) = [([0, 1], 2, true)] := by
+  decide
 
 /-! ## (e) copies keep the bit of each original -/
 
